@@ -110,6 +110,31 @@ func Matrix(emit func(string)) {
 	}
 }
 
+// MatrixOver enumerates the one-hole templates over vals, and the two-hole templates over vals x others (both orders).
+func MatrixOver(vals, others []string, emit func(string)) {
+	for _, t := range Templates1 {
+		for _, v := range vals {
+			emit(fill(t, v, "", ""))
+		}
+	}
+	for _, op := range binOps {
+		for _, v := range vals {
+			for _, w := range others {
+				emit(v + " " + op + " " + w)
+				emit(w + " " + op + " " + v)
+			}
+		}
+	}
+	for _, t := range Templates2 {
+		for _, v := range vals {
+			for _, w := range others {
+				emit(fill(t, v, w, ""))
+				emit(fill(t, w, v, ""))
+			}
+		}
+	}
+}
+
 // MatrixSmall is the one-hole part (used under the full flag cube).
 func MatrixSmall(emit func(string)) {
 	for _, t := range Templates1 {
